@@ -88,3 +88,17 @@
   (=> (> (cntK A K n) 0) (exists ((j Int)) (and (<= 0 j) (< j n) (= (kindOf (select A j)) K))))
   :pattern ((cntK A K n)))))
 (define-fun ile ((a Int) (b Int)) Bool (<= a b))
+
+; ---- C06/C14 (objects): ghost enumerations of a key set ----------------------------------
+; isEnum(o, D, n): o[0..n) lists every key of D exactly once
+(declare-fun isEnum ((Array Int Str) (Array Str Bool) Int) Bool)
+(assert (forall ((o (Array Int Str)) (D (Array Str Bool)) (n Int) (i Int)) (!
+  (=> (and (isEnum o D n) (<= 0 i) (< i n)) (select D (select o i)))
+  :pattern ((isEnum o D n) (select o i)))))
+(assert (forall ((o (Array Int Str)) (D (Array Str Bool)) (n Int) (i Int) (j Int)) (!
+  (=> (and (isEnum o D n) (<= 0 i) (< i n) (<= 0 j) (< j n) (not (= i j))) (not (= (select o i) (select o j))))
+  :pattern ((isEnum o D n) (select o i) (select o j)))))
+(declare-fun enumPos ((Array Int Str) (Array Str Bool) Int Str) Int)
+(assert (forall ((o (Array Int Str)) (D (Array Str Bool)) (n Int) (k Str)) (!
+  (=> (and (isEnum o D n) (select D k)) (and (<= 0 (enumPos o D n k)) (< (enumPos o D n k) n) (= (select o (enumPos o D n k)) k)))
+  :pattern ((isEnum o D n) (select D k)))))
